@@ -191,8 +191,35 @@ class FactFlow:
                 ):
                     continue
                 out[k] = f
-        # gen: simple equalities
+        # gen: after a push the receiver is non-empty
         a = n.ast
+        if n.kind == "stmt" and isinstance(a, ast.Expr):
+            for c in [a.value]:
+                if isinstance(c, ast.Call):
+                    recv = None
+                    if isinstance(c.func, ast.Attribute) and c.func.attr in ("append", "add", "appendleft"):
+                        recv = c.func.value
+                    elif isinstance(c.func, ast.Name) and c.func.id in self.aliases:
+                        r, meth = self.aliases[c.func.id]
+                        if meth in ("append", "add", "appendleft"):
+                            recv = ast.parse(r, mode="eval").body
+                    if recv is not None and isinstance(recv, (ast.Name, ast.Attribute)):
+                        f = Fact("cond", recv, True)
+                        out = dict(out)
+                        out[f.key] = f
+        # gen: an index read that did not raise was in range
+        if n.kind in ("stmt", "return") and a is not None and not isinstance(a, ast.Expr):
+            for sub in _unconditional_index_reads(a):
+                cmp_ = ast.Compare(
+                    left=sub.slice,
+                    ops=[ast.Lt()],
+                    comparators=[ast.Call(func=ast.Name(id="len", ctx=ast.Load()), args=[sub.value], keywords=[])],
+                )
+                f = Fact("cond", cmp_, True)
+                if not (f.deps & assigned):
+                    out = dict(out)
+                    out[f.key] = f
+        # gen: simple equalities
         if n.kind == "stmt" and isinstance(a, (ast.Assign, ast.AnnAssign)):
             value = a.value
             targets = a.targets if isinstance(a, ast.Assign) else [a.target]
@@ -258,6 +285,31 @@ class FactFlow:
                 common = ks if common is None else (common & ks)
             facts = [self.IN[nodes[0]][k] for k in (common or set())]
         return facts + expr_context_facts(expr)
+
+
+def _unconditional_index_reads(stmt: ast.AST) -> list[ast.Subscript]:
+    """Non-slice index reads on a plain name that are evaluated whenever `stmt` runs."""
+    out: list[ast.Subscript] = []
+    stack = [stmt]
+    while stack:
+        n = stack.pop()
+        if isinstance(n, (ast.IfExp, ast.BoolOp, ast.Lambda, ast.ListComp, ast.SetComp,
+                          ast.DictComp, ast.GeneratorExp, ast.FunctionDef, ast.AsyncFunctionDef,
+                          ast.ClassDef)):
+            continue
+        if (
+            isinstance(n, ast.Subscript)
+            and isinstance(n.ctx, ast.Load)
+            and not isinstance(n.slice, (ast.Slice, ast.Tuple))
+            and isinstance(n.value, ast.Name)
+            and linear(n.slice) is not None
+        ):
+            out.append(n)
+        if isinstance(n, ast.AnnAssign):
+            stack.extend(x for x in (n.target, n.value) if x is not None)
+            continue
+        stack.extend(ast.iter_child_nodes(n))
+    return out
 
 
 def _has_call_other_than(expr: ast.AST, ok: set[str]) -> bool:
